@@ -44,6 +44,21 @@ def _validation(prog, f, S, anchor, dom):
         if anchor in avoid or anchor not in cfg.reachable(f, 0, avoid=avoid):
             cn.append(b)
     if not cn:
+        # a helper that performs the validation, called with `?` on every path to the anchor
+        for b, t in f.calls():
+            g = prog.callee_fn(t)
+            if g is None or g.crate != "msi" or g is f or not g.locals[0].startswith("std::result::Result<"):
+                continue
+            if not calls(prog, g, r"^msi::internal::expr::Expr::column_names$"):
+                continue
+            Sg = Sym(prog, g)
+            if _validation(prog, g, Sg, g.returns()[0] if g.returns() else 0, cfg.dominators(g)) is None and not _helper_validates(prog, g):
+                continue
+            # propagated and on every path to the anchor
+            nb = t["succ"][0]
+            br = [bb for bb, tt in f.calls() if (tt.get("callee") or "").endswith("Try::branch") and S.val(tt["args"][0]).startswith("call@%d:" % b)]
+            if br and (anchor == b or anchor not in cfg.reachable(f, 0, avoid={b})):
+                return "validated by helper %s (propagated with ?)" % short(g.name)
         return None
     tests = calls(prog, f, r"^msi::internal::table::Table::(has_column|index_for_column_name)$")
     for c in cn:
@@ -59,6 +74,16 @@ def _validation(prog, f, S, anchor, dom):
             if r & errs:
                 return "column_names() in bb%d, %s in bb%d with an error edge" % (c, cname(prog, ht).rsplit("::", 1)[-1], hb)
     return None
+
+
+def _helper_validates(prog, g):
+    """g calls column_names and has_column/index_for_column_name and has an InvalidInput error reachable from the test"""
+    errs = {b for (b, t, k, m) in error_sites(prog, g)}
+    tests = calls(prog, g, r"^msi::internal::table::Table::(has_column|index_for_column_name)$")
+    for hb, ht in tests:
+        if cfg.reachable(g, ht["succ"][0]) & errs:
+            return True
+    return False
 
 
 def gate_eval(ctx, rule="GATE-EVAL"):
